@@ -52,12 +52,14 @@ fn main() {
     match (ctx.tier, c17) {
         (Tier::Quick, false) => {
             plans.push((vec![Kind::Gate], true, true));
+            plans.push((vec![Kind::GateDrop], true, false));
             plans.push((vec![Kind::Panic], true, false));
             plans.push((vec![Kind::Gate, Kind::Gate], false, false));
             plans.push((vec![Kind::Gate, Kind::Panic], false, false));
         }
         (Tier::Quick, true) => {
             plans.push((vec![Kind::Gate], true, true));
+            plans.push((vec![Kind::GateDrop], true, false));
             plans.push((vec![Kind::Gate, Kind::Gate], false, false));
         }
         (Tier::Thorough, false) => {
@@ -72,41 +74,78 @@ fn main() {
         }
         (Tier::Thorough, true) => {
             plans.push((vec![Kind::Gate], true, true));
+            plans.push((vec![Kind::GateDrop], true, true));
+            plans.push((vec![Kind::GateDrop, Kind::Gate], false, false));
             plans.push((vec![Kind::Gate, Kind::Gate], true, false));
             plans.push((vec![Kind::Gate, Kind::Gate], false, true));
             plans.push((vec![Kind::Gate, Kind::Panic], false, false));
             plans.push((vec![Kind::Gate, Kind::Gate, Kind::Gate], false, false));
         }
     }
-    for mode in modes {
-        for rt in &rts {
-            for (kinds, paths, half) in &plans {
-                let cfg = WorldCfg { mode, rt: *rt, kinds: kinds.clone(), with_shutdown: c17, with_half: *half };
-                let (hist, nstates, capped_enum) = if *paths {
-                    let (h, c) = all_paths(&cfg, ctx.tier.pick(4000, 60000));
-                    let (_, ns) = transition_cover(&cfg);
-                    (h, ns, c)
-                } else {
-                    let (h, ns) = transition_cover(&cfg);
-                    (h, ns, false)
-                };
-                let t0 = ctx.elapsed();
-                let (ex, capped) = explore(&ctx, &cfg, &hist, par, window(ctx.tier), budget, &samples);
-                if capped || capped_enum {
-                    caps.push(format!("world {}: {} of {} histories executed (wall budget {budget}s / enumeration cap)", cfg.to_json(), ex.histories, hist.len()));
+    // C17: a handler that keeps running for several seconds after shutdown was requested (client stays):
+    // close() must stay pending for the whole time and the response must still be delivered. These
+    // histories run on their own threads while the explorations below proceed.
+    let ctx_ref = &ctx;
+    let long_hold = std::thread::scope(|sc| {
+        let mut hs = vec![];
+        if c17 {
+            for mode in modes {
+                for kind in [Kind::Gate, Kind::GateDrop] {
+                    hs.push(sc.spawn(move || {
+                        let cfg = WorldCfg { mode, rt: RtKind::MultiThread(2), kinds: vec![kind], with_shutdown: true, with_half: false };
+                        let h = vec![Ev::Connect(0), Ev::Send(0), Ev::Shutdown];
+                        let hold = Duration::from_millis(6500);
+                        let o = run_history(&cfg, &h, hold);
+                        report_failures(ctx_ref, &cfg, &h, &o, hold);
+                        o.trace.len() as u64
+                    }));
                 }
-                states += nstates;
-                transitions += ex.transitions;
-                histories += ex.histories;
-                degraded += ex.degraded_sync;
-                mach += ex.machinery_errors;
-                distinct += ex.outcomes.len();
-                worlds.push(json!({"world": cfg.to_json(), "exploration": if *paths {"every maximal path"} else {"every transition of the script graph once"},
-                    "script_states": nstates, "histories": hist.len(), "executed": ex.histories, "events_executed": ex.transitions,
-                    "distinct_observed_outcome_vectors": ex.outcomes.len(), "wall_s": ctx.elapsed() - t0}));
             }
         }
+    for mode in modes {
+            for rt in &rts {
+                for (kinds, paths, half) in &plans {
+                    let cfg = WorldCfg { mode, rt: *rt, kinds: kinds.clone(), with_shutdown: c17, with_half: *half };
+                    let (hist, nstates, capped_enum) = if *paths {
+                        let (h, c) = all_paths(&cfg, ctx.tier.pick(4000, 60000));
+                        let (_, ns) = transition_cover(&cfg);
+                        (h, ns, c)
+                    } else {
+                        let (h, ns) = transition_cover(&cfg);
+                        (h, ns, false)
+                    };
+                    let t0 = ctx.elapsed();
+                    let (ex, capped) = explore(&ctx, &cfg, &hist, par, window(ctx.tier), budget, &samples);
+                    if capped || capped_enum {
+                        caps.push(format!("world {}: {} of {} histories executed (wall budget {budget}s / enumeration cap)", cfg.to_json(), ex.histories, hist.len()));
+                    }
+                    states += nstates;
+                    transitions += ex.transitions;
+                    histories += ex.histories;
+                    degraded += ex.degraded_sync;
+                    mach += ex.machinery_errors;
+                    distinct += ex.outcomes.len();
+                    worlds.push(json!({"world": cfg.to_json(), "exploration": if *paths {"every maximal path"} else {"every transition of the script graph once"},
+                        "script_states": nstates, "histories": hist.len(), "executed": ex.histories, "events_executed": ex.transitions,
+                        "distinct_observed_outcome_vectors": ex.outcomes.len(), "wall_s": ctx.elapsed() - t0}));
+                }
+            }
+        }
+    
+        let mut n = 0u64;
+        let mut ev = 0u64;
+        for h in hs {
+            ev += h.join().unwrap_or(0);
+            n += 1;
+        }
+        (n, ev)
+    });
+    histories += long_hold.0;
+    transitions += long_hold.1;
+    if c17 {
+        worlds.push(json!({"world": "1 client (Gate / GateDrop), both modes", "exploration": "long hold: Connect, Send, Shutdown, 6.5 s during which close() must stay pending, then Release, Read", "histories": long_hold.0}));
     }
+    let h2 = if !c17 { vh::h2slice::run(&ctx, &samples) } else { json!(null) };
     if mach > 0 && histories == 0 {
         machinery_failure("no history could be executed");
     }
@@ -118,6 +157,7 @@ fn main() {
         "distinct_nontrivial": distinct,
         "rule": "state = the harness's script state (per client: phase New/Connected/HalfSent/Sent/Released/Responded, closed?, gate released?; shutdown requested?; waiters); transition = one harness-owned event (Connect, SendHalf, Send, Release, Read, Close(FIN), Reset(RST), Shutdown, Waiter) fired at a real server started fresh for every history and run to quiescence; every history is extended by a canonical tail (release, read, close clients, release remaining gates, shut down) so every execution runs to completion. Invariants (handler board, responses, health probe, close() pending/returned, waiters, listening socket) are evaluated after every event. distinct_nontrivial = distinct observed board-trace vectors.",
         "worlds": worlds,
+        "http2_slice": h2,
         "degraded_sync": degraded,
         "machinery_errors": mach,
         "caps_hit": caps,
